@@ -157,6 +157,41 @@ CLAIMED = {
         note=TB + " pydantic validation of the config class is the reference for accepted / rejected dictionaries.",
         technique="Coq (facts by computation over regenerated skeletons + schema theorem + non-interference) + API search",
         design="§7 C18"),
+    "C19": dict(
+        text=("Proof (Coq, Grid.v/Rank.v): for every parameter grid (any number of sub-grids, keys, values) len = number of iterated points, "
+              "getitem i = i-th iterated point for every i < len and IndexError beyond, the iterated points are exactly the union of the Cartesian "
+              "products of the sub-grids; the evaluation plan of execute() is grid x trials with each pair exactly once; for every score table "
+              "(ties, equal means with different spreads, NaN spreads for one trial) and both directions the selected row has an optimal mean "
+              "(model of pandas rank(average) on mean and std, dense rank of the pair, first row of minimal rank). Tie: ParameterGrid and the "
+              "selection model are hand-written; the statements of execute()/resolve() they describe are pinned by shape extraction (fail closed) "
+              "and the models are compared by vm_compute with the real ParameterGrid (exhaustive 0-3 keys x 1-3 values, dict / list of dicts) and "
+              "with the real pandas selection on generated tables; execute()/resolve() run for real with a table-driven optimizer."),
+        note=TB + " pandas mean/std values are taken from the real DataFrame (rank semantics modelled, differentially checked); means not NaN; "
+                  "process pool of execute() exercised, not modelled; the tie to hypertuner.py is shape-pinning + correspondence, not translation.",
+        technique="Coq proof on hand model (grid product/divmod induction; rank-selection optimality) + shape pin + vm_compute correspondence + real execute() runs",
+        design="§7 C19"),
+    "C20": dict(
+        text=("Proof (Coq, Multi.v): for all n, m the broadcasting of `modes` (branch order of __check_input__ as in the code) designates for each "
+              "(algorithm, task) pair the documented mode in each of the four shapes and serial for None; other lengths and unknown modes are rejected "
+              "at construction; the execution plan contains every (algorithm, task, trial 1..k) exactly once with that mode (n*m*k evaluations). "
+              "Ambiguous lengths (n = m, n or m = 1) resolve in the code's branch order, stated as hypotheses of the shape theorems. Tie: Multitask's "
+              "methods pinned by shape extraction (fail closed); correspondence by vm_compute of check_input/get_mode tables against the real "
+              "constructor for n, m in 1..3, every shape and mode value; execute() and export_results run for real with reporting optimizers "
+              "(modes, workers, tasks seen; table shapes; one file per algorithm under <save_path>/<name>/ for the three formats)."),
+        note=TB + " Process pool and file system exercised, not modelled; tie is shape-pinning + correspondence, not translation.",
+        technique="Coq proof on hand model (list/nth arithmetic) + shape pin + vm_compute correspondence + real execute()/export runs",
+        design="§7 C20"),
+    "C11": dict(
+        text=("PARTIAL proof. Proved (Coq): with the pool modelled as 'results arrive in an arbitrary permutation' (any completion order, any worker count), "
+              "the REGENERATED pooled _generate_agents/_init_population yields exactly population_size agents, one per submitted evaluation, the k-th evaluation "
+              "receiving the k-th position drawn by the submitting process - so distinct draws give pairwise distinct initial points, whereas draws made "
+              "inside forked workers replay one stream (the repaired defect, as a theorem about the alternative schema); the REGENERATED pooled "
+              "_greedy_select_population keeps the same agents as the serial one (a permutation of it); per-result guarantees (C01/C02) carry over a "
+              "permutation and C03/C10 hold for every order. NOT proved: that CPython's executors and fork stay inside that envelope - exercised by real "
+              "thread/process runs with injected delays."),
+        note=TB + " get_pool_executor/get_pool_results pinned by shape; OS scheduling and fork semantics modelled as permutation/assignment nondeterminism.",
+        technique="Coq proof (permutation-invariance over regenerated pooled branches) + shape pin + real pooled runs with delays",
+        design="§7 C11"),
 }
 
 PENDING_REASON = "check not built yet in this round (work in progress, see DESIGN.md §11 build order); not claimed until its check exists"
